@@ -15,6 +15,42 @@ CHECKS = {
    technique="TLA+ spec Aggregators.tla model-checked by TLC (all input sequences up to the bound, definitional laws as invariants and an action property); TLC-printed vectors replayed through ascent::aggregators",
    text="Exhaustive inside the bound: TLC enumerates every input sequence (quick: length <= 4 over 5 values; thorough: length <= 5 over 7 values incl. +-10^6) and 11-13 percentile arguments incl. both end points, proves the definitional laws on the specification and prescribes every result; each vector is executed on the real functions with iterators of exact, inexact and absent size hints, panics captured. Right level: the aggregators are pure functions of a bag, so spec-to-implementation replay of the complete small scope is a decision procedure for that scope.",
    note="Trusted: TLC, the comparison code in engines/agg.py. percentile is judged by property-level constraints (element of the input, rank within one position of n*p/100, exact at p=0/100, monotone in p), so a different legitimate rank convention does not alarm. Values are small integers (i64/i32)."),
+ "C01": dict(engine='sem', ref='DESIGN.md section 6 (C01)',
+   technique='TLA+ specification of the rule language (AscentSem.tla: stratified least model interpreted by TLC from the program AST) + SemGen.tla (TLC enumerates every small input database, checks the theorems of the semantics, prints behaviours) replayed on the compiled macros + TraceSem.tla (TLC validates every recorded hook event and final state against the semantics)',
+   text='Model checking of the declarative semantics (fixpoint, inputs included, idempotence, monotonicity as TLC invariants / action property over every enumerated database) and conformance in both directions: every TLC-enumerated behaviour (program x input database) is executed on the compiled ascent! program (plain and generate_run_timeout variants) and the recorded trace - every head insertion, every merge round, return value, final rows - is validated by TLC against the specification, which recomputes the least model: an inserted tuple must be new and derivable at the moment it is inserted, the final relations must equal the least model as sets and as multisets. Right level: the property quantifies over programs x inputs; the semantics is executable in TLC, so the oracle is exact, and small inputs are enumerated exhaustively per program.',
+   note='Trusted: TLC and the CommunityModules JSON reader, rustc, the AST renderer gen/render.py (its agreement with the TLA+ interpreter is itself exercised by every run), the normalisation of Debug-printed rows in engines/semlib.py, hooks being observation-only. Programs and inputs are exhaustive only inside the stated bounds (program corpus of hand-written shapes; inputs: all databases with <= bound tuples over a 2-4 element domain).'),
+ "C03": dict(engine='sem', ref='DESIGN.md section 6 (C03)',
+   technique='TLA+ specification of the rule language (AscentSem.tla: stratified least model interpreted by TLC from the program AST) + SemGen.tla (TLC enumerates every small input database, checks the theorems of the semantics, prints behaviours) replayed on the compiled macros + TraceSem.tla (TLC validates every recorded hook event and final state against the semantics)',
+   text="As C01, for lattice relations over max/Dual/Set/BoundedSet/Option/ConstPropagation/tuple/bool lattices: TLC computes the key-wise least fixed point with Lattices.tla's join; every recorded lattice update must keep one row per key, never decrease, never exceed the least fixed point; the final rows must carry exactly the least-fixed-point value per key and every dependent relation must be complete.",
+   note='Trusted: TLC and the CommunityModules JSON reader, rustc, the AST renderer gen/render.py (its agreement with the TLA+ interpreter is itself exercised by every run), the normalisation of Debug-printed rows in engines/semlib.py, hooks being observation-only. Programs and inputs are exhaustive only inside the stated bounds (program corpus of hand-written shapes; inputs: all databases with <= bound tuples over a 2-4 element domain). Lattice programs of the corpus use lattice values monotonically inside recursion (premise of the property); reads from later strata are unrestricted.'),
+ "C04": dict(engine='sem', ref='DESIGN.md section 6 (C04)',
+   technique='TLA+ specification of the rule language (AscentSem.tla: stratified least model interpreted by TLC from the program AST) + SemGen.tla (TLC enumerates every small input database, checks the theorems of the semantics, prints behaviours) replayed on the compiled macros + TraceSem.tla (TLC validates every recorded hook event and final state against the semantics)',
+   text='As C01 for stratified programs with negation and aggregation (count, sum, min, max, not, two user aggregators incl. one exposing multiplicity and one yielding several values), serial and parallel macros: the oracle aggregates over the set of distinct matching tuples of the COMPLETE lower stratum, so an aggregate evaluated too early or fed a tuple twice produces an underivable insertion that TraceSem rejects at that very event.',
+   note='Trusted: TLC and the CommunityModules JSON reader, rustc, the AST renderer gen/render.py (its agreement with the TLA+ interpreter is itself exercised by every run), the normalisation of Debug-printed rows in engines/semlib.py, hooks being observation-only. Programs and inputs are exhaustive only inside the stated bounds (program corpus of hand-written shapes; inputs: all databases with <= bound tuples over a 2-4 element domain).'),
+ "C05": dict(engine='sem', ref='DESIGN.md section 6 (C05)',
+   technique='TLA+ specification of the rule language (AscentSem.tla: stratified least model interpreted by TLC from the program AST) + SemGen.tla (TLC enumerates every small input database, checks the theorems of the semantics, prints behaviours) replayed on the compiled macros + TraceSem.tla (TLC validates every recorded hook event and final state against the semantics)',
+   text='Every corpus program (all tags), serial and parallel: TraceSem rejects an insertion event for a tuple already present (duplicate-insert), a final state whose row count differs from its number of distinct tuples, two rows for one lattice key, and a pushed input row that is missing afterwards.',
+   note='Trusted: TLC and the CommunityModules JSON reader, rustc, the AST renderer gen/render.py (its agreement with the TLA+ interpreter is itself exercised by every run), the normalisation of Debug-printed rows in engines/semlib.py, hooks being observation-only. Programs and inputs are exhaustive only inside the stated bounds (program corpus of hand-written shapes; inputs: all databases with <= bound tuples over a 2-4 element domain).'),
+ "C06": dict(engine='sem', ref='DESIGN.md section 6 (C06)',
+   technique='TLA+ specification of the rule language (AscentSem.tla: stratified least model interpreted by TLC from the program AST) + SemGen.tla (TLC enumerates every small input database, checks the theorems of the semantics, prints behaviours) replayed on the compiled macros + TraceSem.tla (TLC validates every recorded hook event and final state against the semantics)',
+   text='Variant families of one logical program - permuted rules, declarations, head clauses and adjacent independent clauses; alpha-renamed variables and relations; constants mapped injectively to Strings and to large u64s with the column type changed; shuffled input vectors; serial and parallel - are all compiled and each must produce the image of the single least model TLC computes from the logical program.',
+   note='Trusted: TLC and the CommunityModules JSON reader, rustc, the AST renderer gen/render.py (its agreement with the TLA+ interpreter is itself exercised by every run), the normalisation of Debug-printed rows in engines/semlib.py, hooks being observation-only. Programs and inputs are exhaustive only inside the stated bounds (program corpus of hand-written shapes; inputs: all databases with <= bound tuples over a 2-4 element domain). Independence of body items is decided conservatively (adjacent clauses without conditions / expression arguments).'),
+ "C07": dict(engine='sem', ref='DESIGN.md section 6 (C07)',
+   technique='TLA+ specification of the rule language (AscentSem.tla: stratified least model interpreted by TLC from the program AST) + SemGen.tla (TLC enumerates every small input database, checks the theorems of the semantics, prints behaviours) replayed on the compiled macros + TraceSem.tla (TLC validates every recorded hook event and final state against the semantics)',
+   text='Each sugared corpus program (disjunctions incl. nested, ?pattern arguments, repeated variables, expression arguments over earlier columns of the same clause, wildcards, negation, multi-head rules, facts) is compiled as written and as its hand-written core expansion, serial and parallel; both must equal the least model TLC computes from the sugared AST.',
+   note='Trusted: TLC and the CommunityModules JSON reader, rustc, the AST renderer gen/render.py (its agreement with the TLA+ interpreter is itself exercised by every run), the normalisation of Debug-printed rows in engines/semlib.py, hooks being observation-only. Programs and inputs are exhaustive only inside the stated bounds (program corpus of hand-written shapes; inputs: all databases with <= bound tuples over a 2-4 element domain). The hand expansion is produced by gen/xforms.py (documented desugaring written out as core syntax); the oracle gives the sugared forms their meaning directly (disjunction = union of environments, ! = emptiness test, ?pattern = match, repeated variable / non-variable argument = equality).'),
+ "C08": dict(engine='sem', ref='DESIGN.md section 6 (C08)',
+   technique='TLA+ specification of the rule language (AscentSem.tla: stratified least model interpreted by TLC from the program AST) + SemGen.tla (TLC enumerates every small input database, checks the theorems of the semantics, prints behaviours) replayed on the compiled macros + TraceSem.tla (TLC validates every recorded hook event and final state against the semantics)',
+   text='Programs with in-program macros (same macro twice in one rule, call-site variable spelled like a macro-local one, nested invocations, macro containing a disjunction) are compiled as written (real rustc, because hygiene is implemented on token spans) and as their hand-written hygienic expansion; both must equal the least model of MacroExpand(P) computed by TLC.',
+   note='Trusted: TLC and the CommunityModules JSON reader, rustc, the AST renderer gen/render.py (its agreement with the TLA+ interpreter is itself exercised by every run), the normalisation of Debug-printed rows in engines/semlib.py, hooks being observation-only. Programs and inputs are exhaustive only inside the stated bounds (program corpus of hand-written shapes; inputs: all databases with <= bound tuples over a 2-4 element domain). MacroExpand in AscentSem.tla is the specification of hygiene (parameters unify with call-site identifiers, every other identifier of the body is renamed per invocation path).'),
+ "C09": dict(engine='sem', ref='DESIGN.md section 6 (C09)',
+   technique='TLA+ specification of the rule language (AscentSem.tla: stratified least model interpreted by TLC from the program AST) + SemGen.tla (TLC enumerates every small input database, checks the theorems of the semantics, prints behaviours) replayed on the compiled macros + TraceSem.tla (TLC validates every recorded hook event and final state against the semantics)',
+   text='Packaging variants of one logical program - ascent!, ascent_run! and ascent_run_par! with captured locals, ascent_source!/include_source! with the include first / in the middle / last (serial and parallel), relation r(..) = expr initialisers, re-declared relations (last declaration wins), generic struct signature, measure_rule_times, generate_run_timeout - are compiled and each must produce the least model TLC computes.',
+   note='Trusted: TLC and the CommunityModules JSON reader, rustc, the AST renderer gen/render.py (its agreement with the TLA+ interpreter is itself exercised by every run), the normalisation of Debug-printed rows in engines/semlib.py, hooks being observation-only. Programs and inputs are exhaustive only inside the stated bounds (program corpus of hand-written shapes; inputs: all databases with <= bound tuples over a 2-4 element domain). segment-codegen is covered by the thorough tier only (needs a second build of the corpus).'),
+ "C16": dict(engine='lat', ref='DESIGN.md section 6 (C16)',
+   technique='TLA+ spec Lattices.tla (order/join/meet over a language of type expressions) model-checked by TLC through LatticeCell.tla (all pairs and triples of every carrier; lattice laws, bounds, Dual/Reverse swap, changed-flag truthfulness as invariants); TLC-printed vectors and cell histories replayed through the real Lattice impls',
+   text='Exhaustive over small carriers: for 39 lattice types (all shipped implementations and nested compositions) TLC enumerates every pair (quick: plus triples of the 30 smallest types; thorough: every triple), proves the laws on the specification and prescribes join, meet, join_mut/meet_mut result and changed flag, partial_cmp, top/bottom; lat-replay executes each vector and each three-step cell history on the real types (shared and uniquely owned Rc/Arc operands). Right level: each implementation is a finite case analysis; replaying the complete small scope is a decision procedure for it.',
+   note='Trusted: TLC, the JSON codec in harness/lat-replay. Carriers are small (<= 32 values per type); generic element types are instantiated with i8/u8/bool/small sets.'),
 }
 
 REASON_TODO = "check under construction in this round: not claimed until its engine is registered here"
